@@ -51,6 +51,8 @@ inductive Stmt where
   | int (x : String) (e : Expr)                -- integer assignment (flags)
   | ite (c : Expr) (t e : List Stmt)
   | scope (body : List Stmt)                   -- an inlined callee: a `ret` inside ends the callee only
+  | inv (dst a : String)                       -- secp256k1_fe_inv / _inv_var (safegcd, NOT translated): needs mag a ≤ 8; normalized result
+  | isSquare (x : String) (f : String)         -- x := secp256k1_fe_is_square_var(f) (Jacobi symbol via safegcd, NOT translated)
   | ret
 deriving Repr
 
@@ -111,6 +113,12 @@ def execS (st : State) : Stmt → Option State
     match execL st body with
     | none => none
     | some st' => some { st' with returned := st.returned }
+  | .inv d a =>
+    let x := st.fe.get a
+    if x.mag ≤ 8 then some { st with fe := st.fe.set d ⟨Fe.inv (canon x.val), 1⟩ } else none
+  | .isSquare x f =>
+    let v := st.fe.get f
+    if v.mag ≤ 32 then some { st with ints := st.ints.set x 0 (if Fe.isSquare (canon v.val) then 1 else 0) } else none
   | .ret => some { st with returned := true }
 
 def execL (st : State) : List Stmt → Option State
